@@ -237,9 +237,11 @@ class BuildDirector(SectionLineParser):
         # if template graphs and volumes are provided
         # make sure that volumes are indexed by the hash
         for resname, graph_hash in self.resnames_to_hash.items():
+            # the volume stays available by residue name as well, because
+            # residues with the same name but a different graph (i.e. hash)
+            # look it up by name
             if resname in self.topology.volumes:
                 self.topology.volumes[graph_hash] = self.topology.volumes[resname]
-                del self.topology.volumes[resname]
 
     @staticmethod
     def _tag_nodes(molecule, keyword, option, molname=""):
